@@ -34,6 +34,10 @@ def run(ctx):
             files = cf + sched_stream.write_zoo(ctx, ctx.n(500, 4000), "zoo_search") + sched_stream.write_generated(ctx, ctx.n(200, 3000), "gen_search") \
                 + sched_stream.fixture_programs(ctx.n(150, None))
             ok = sched_stream.compare_modes(ctx, "search_schedules", files, modes, steps=ctx.n(150000, 400000))
+            if ok and common.cargo_build(nan_boxing=True)[0]:
+                nb = cf + sched_stream.write_zoo(ctx, ctx.n(400, 3000), "zoo_search_nb", salt=2)
+                ok = sched_stream.compare_modes(ctx, "search_schedules_nan_boxing", nb, ["--gc every:1", "--gc every:3 --full 1", "--gc every:2 --full 0"],
+                                                steps=ctx.n(150000, 400000), nan_boxing=True)
             if ok:
                 ctx.violation("proof", {"kind": "proof-obligation-failed", "broken": what, "detail": detail}, no_input=True)
             else:
